@@ -12,7 +12,7 @@ Assemble/_optimized_for_numpy rewrites.
 import ast
 
 from sa import AnalysisError
-from sa.astutil import dotted, src, stmt_text, params, arity, find_stmts, calls_in, method_name, walk_no_nested, const, resolved
+from sa.astutil import dotted, src, stmt_text, params, arity, find_stmts, calls_in, method_name, walk_no_nested, const, resolved, deep_resolved
 from sa.paths import PathEnumerator, Event
 
 MUTATORS = {'array_fill_zeros': 0, 'array_add_at': 0, 'array_iadd': 0, 'array_imul': 0, 'array_copy': 0}
@@ -199,14 +199,75 @@ def check_who_may_call(model, rep):
                     rep.ob('R02.3', f.key, f.where(c), ok, 'the in-place protocol of another node is entered through the builder' if ok else
                            f'`{src(c)[:70]}` calls the in-place protocol of another node directly, bypassing the dependents/block-order escapes of builder.compile_with_out', statement=f'{recv}._compile_with_out')
     b = model.func('evaluable:_BlockTreeBuilder.compile_with_out')
-    ifs = [s for s in b.body if isinstance(s, ast.If)]
-    if len(ifs) != 1 or not isinstance(ifs[0].test, ast.BoolOp) or not isinstance(ifs[0].test.op, ast.Or):
-        raise AnalysisError('_BlockTreeBuilder.compile_with_out: the escape test was not found')
-    parts = [src(v).replace(' ', '') for v in ifs[0].test.values]
-    want = ['self.ndependents[evaluable]>1', 'evaluable_block_id<out_block_id', 'evaluable._compile_with_out(self,out,out_block_id,mode)isNotImplemented']
-    ok = parts == want
+    # decided by executing the statements over the eight truth assignments of the three tests (short circuit respected), so that the way the
+    # decision is spelled (one `or`, a flag that is refined, nested ifs) does not matter: the in-place call of the term is EVALUATED iff the term has a
+    # single dependent and is not placed before the destination; the fallback runs iff one of the two holds or the call answered NotImplemented
+    import itertools
+    from sa.boolnf import formula as _formula
+    KA, KB = _formula(ast.parse('self.ndependents[evaluable] > 1', mode='eval').body), _formula(ast.parse('evaluable_block_id < out_block_id', mode='eval').body)
+
+    class _Unknown(Exception):
+        pass
+
+    def bev(e, env, val, st):
+        if isinstance(e, ast.BoolOp):
+            r = None
+            for x in e.values:
+                r = bev(x, env, val, st)
+                if (isinstance(e.op, ast.Or) and r) or (isinstance(e.op, ast.And) and not r):
+                    return r
+            return r
+        if isinstance(e, ast.UnaryOp) and isinstance(e.op, ast.Not):
+            return not bev(e.operand, env, val, st)
+        if isinstance(e, ast.Name) and e.id in env:
+            return env[e.id]
+        if isinstance(e, ast.Constant) and isinstance(e.value, bool):
+            return e.value
+        if isinstance(e, ast.Compare) and len(e.ops) == 1:
+            inplace = any(isinstance(c, ast.Call) and method_name(c) == '_compile_with_out' for c in ast.walk(e))
+            if inplace and isinstance(e.ops[0], (ast.Is, ast.IsNot, ast.Eq, ast.NotEq)) and 'NotImplemented' in (src(e.left), src(e.comparators[0])):
+                st['evaluated'] += 1
+                return val['C'] == isinstance(e.ops[0], (ast.Is, ast.Eq))
+            f_ = _formula(ast.parse(src(deep_resolved(b.node, e)), mode='eval').body) if False else _formula(e)
+            for key, nm in ((KA, 'A'), (KB, 'B')):
+                if f_ == key:
+                    return val[nm]
+                if f_ == ('not', key):
+                    return not val[nm]
+            if src(e) == "mode == 'assign'" or src(e) == "mode == 'iadd'":
+                return True
+        raise _Unknown(src(e))
+
+    def bexec(stmts, env, val, st):
+        for s_ in stmts:
+            if isinstance(s_, ast.If):
+                bexec(s_.body if bev(s_.test, env, val, st) else s_.orelse, env, val, st)
+            elif isinstance(s_, ast.Assign) and len(s_.targets) == 1 and isinstance(s_.targets[0], ast.Name) and isinstance(s_.value, (ast.BoolOp, ast.Compare, ast.UnaryOp, ast.Constant)) \
+                    and (isinstance(s_.value, (ast.BoolOp, ast.Compare)) or (isinstance(s_.value, ast.UnaryOp) and isinstance(s_.value.op, ast.Not)) or isinstance(getattr(s_.value, 'value', None), bool)):
+                env[s_.targets[0].id] = bev(s_.value, env, val, st)
+            else:
+                if any(isinstance(c, ast.Call) and method_name(c) == '_compile_with_out' for c in ast.walk(s_)):
+                    st['evaluated'] += 1    # called outside a test: evaluated unconditionally at this point
+                if any(isinstance(c, ast.Call) and src(c.func) == 'self.compile' for c in ast.walk(s_)):
+                    st['fallback'] += 1
+    wrong = None
+    try:
+        for a_, b_, c_ in itertools.product((False, True), repeat=3):
+            st = {'evaluated': 0, 'fallback': 0}
+            bexec(b.body, {}, {'A': a_, 'B': b_, 'C': c_}, st)
+            want_eval = not a_ and not b_
+            want_fb = a_ or b_ or c_
+            if (st['evaluated'] > 0) != want_eval or (st['fallback'] > 0) != want_fb or st['evaluated'] > 1:
+                wrong = wrong or (a_, b_, c_, st)
+    except _Unknown as e:
+        raise AnalysisError(f'_BlockTreeBuilder.compile_with_out: the escape test was not found (unrecognised test `{e}`)')
+    ifs = [s for s in ast.walk(b.node) if isinstance(s, ast.If) and any(isinstance(c, ast.Call) and src(c.func) == 'self.compile' for x in s.body for c in ast.walk(x))]
+    if not ifs:
+        raise AnalysisError('_BlockTreeBuilder.compile_with_out: the fallback branch was not found')
+    ok = wrong is None
     rep.ob('R02.3', b.key, b.where(ifs[0]), ok, 'in-place compilation is tried only for a term with a single dependent that is not placed before the destination; NotImplemented falls back' if ok else
-           f'the escape test of compile_with_out is {parts}; it must try `ndependents > 1`, `block before destination` before the in-place call and treat NotImplemented as fallback', statement='escape-order')
+           f'with (several dependents, placed before the destination, answered NotImplemented) = {wrong[:3]} the in-place protocol of the term is ' + ('' if wrong[3]['evaluated'] else 'not ') +
+           'entered and the copy/add fallback is ' + ('' if wrong[3]['fallback'] else 'not ') + 'emitted; it must try `ndependents > 1`, `block before destination` before the in-place call and treat NotImplemented as fallback', statement='escape-order')
     body = ifs[0].body
     txt = ' ; '.join(src(s) for s in body)
     ok = 'value = self.compile(evaluable)' in txt and 'block.array_copy(out, value)' in txt and 'block.array_iadd(out, value)' in txt and "mode == 'assign'" in txt and "mode == 'iadd'" in txt and 'raise ValueError' in txt
